@@ -10,6 +10,7 @@ CONSTANTS
   AllowNil = FALSE
   ChainOnly = TRUE
   WriteNewest = TRUE
+  AllowCopy = FALSE
   EarlyStop = FALSE
   Emit = TRUE
 INVARIANTS ViewsOK Compose ContigIsRun Live
